@@ -1059,7 +1059,10 @@ def run_pipestress(spec, res):
                 cap = fcntl.fcntl(wfd, fcntl.F_GETPIPE_SZ)
         except OSError:
             pass
-        if unbuffered:
+        # every sixth round: an unbuffered file (a raw FileIO) AND lines larger than PIPE_BUF - one write(2) per line that the kernel
+        # completes piecewise while other writers are blocked next to it (recorded finding, see KNOWN_FINDINGS.json)
+        unbuffered_big = unbuffered and (spec["i"] + rnd) % 6 == 5
+        if unbuffered and not unbuffered_big:
             def size(t, q):
                 return (pipe_buf - 200) - 37 * ((t + q) % 5)
             per = max(per, cap // (pipe_buf - 400) // nthreads + 2)  # more than the pipe holds
@@ -1159,8 +1162,11 @@ def run_pipestress(spec, res):
             c["pipe_rounds_with_writers_blocked_on_a_full_pipe"] = c.get("pipe_rounds_with_writers_blocked_on_a_full_pipe", 0) + 1
             res["nontrivial"].append(h(["pipe", spec["i"], rnd, unbuffered, nthreads, cap]))
         if problems and len(res["violations"]) < 3:
-            res["violations"].append({"msg": "pipe: " + problems[0], "mech": None,
-                                      "detail": {"part": "pipestress", "unbuffered": unbuffered, "threads": nthreads, "lines_per_thread": per,
+            mech = None
+            if unbuffered_big and not errors and all(("torn" in p_ or "not what was written" in p_ or "does not end with a newline" in p_) for p_ in problems):
+                mech = "unbuffered-file-line-over-pipe-buf"
+            res["violations"].append({"msg": "pipe: " + problems[0], "mech": mech,
+                                      "detail": {"part": "pipestress", "unbuffered": unbuffered, "line_over_pipe_buf": (not unbuffered) or unbuffered_big, "threads": nthreads, "lines_per_thread": per,
                                                  "pipe_capacity": cap, "smallest_line": minline, "problems": problems[:5]}})
             if len(res["violations"]) >= 3:
                 return
